@@ -80,7 +80,8 @@ def _fix_arity(n: int, g: Callable[..., Any]) -> Callable[..., Any]:
 def lib_fn(name: str, module: str = "rates") -> Callable[..., Any]:
     import importlib
 
-    return getattr(importlib.import_module(f"vlib.fnsrc.{module}"), name)
+    modname = module if "." in module else f"vlib.fnsrc.{module}"
+    return getattr(importlib.import_module(modname), name)
 
 
 def make(fd: dict) -> Callable[..., Any]:
